@@ -98,7 +98,7 @@ CHECKS = [
       text='Breadth-first search over all histories of the documented building calls (add/remove node, switch, facility, component, storage, '
            'service with 0-2 interfaces, port-mirror service, connect/disconnect, peer/unpeer, add/remove sub-interface, rename, set/unset '
            'property, duplicate-name/id attempts; substrate flavour with static ids, patch and three-ended links) from an empty model '
-           '(depth 3 quick / 5 thorough) and from rich roots (depth 2 / 2-3). In every reached state the published rules of '
+           '(depth 3 quick / 4 thorough) and from rich roots (depth 2 / 2-3). In every reached state the published rules of '
            'graph_validation_rules.json (vocabularies parsed from the file itself), the ownership structure, name uniqueness per scope and '
            'equality of every read-only view with the class listings are evaluated on the raw stored graph; views are probed for write-through.',
       note='States violating a structural rule are reported and not expanded further. Alphabet: 2 nodes, 3-5 component models, 6 service '
